@@ -216,6 +216,52 @@ def check_lengths(ctx) -> None:
     ctx.analysed['drilling_length_paths'] = n
 
 
+def check_sutra(ctx) -> None:
+    """SUTRAEconomics.Calculate is a third implementation of the same interface with its own (smaller) component list."""
+    repo = ctx.repo
+    if not repo.has_module('geophires_x/SUTRAEconomics.py'):
+        return
+    fn = repo.method('SUTRAEconomics', 'Calculate', 'geophires_x/SUTRAEconomics.py')
+    rel = fn.module.rel
+    wells = Rat.atom('model.wellbores.nprod.value') + Rat.atom('model.wellbores.ninj.value')
+    inl = lambda k: k in ('self.C1well', 'self.Cwell.value') or '.' not in k
+    pe = PathEnumerator(fn.node.body, {'self.Cwell.value', 'self.C1well'}, slice_deps='locals')
+    n = 0
+    for p in pe.paths():
+        d = p.env.get('self.Cwell.value')
+        ctx.require(d is not None and d.expr is not None, 'SUTRAEconomics.Calculate: a path leaves Cwell unassigned or writes it element-wise')
+        fx = _holds(p, 'self.ccwellfixed.Valid')
+        try:
+            r = Translator(wrappers='opaque', inline=inl).tr_def(d)
+        except Unsupported as e:
+            raise AnalysisError(f'SUTRAEconomics.Calculate: Cwell outside the supported algebra: {e}')
+        n += 1
+        if fx is True or fx is None:
+            want = A('ccwellfixed') * wells
+            ok = r.equals(want)
+            if fx is None and not ok:
+                # the path does not test the flag: it must then be the correlation path, checked below
+                pass
+            else:
+                ctx.check(ok, 'T9', 'SUTRAEconomics/Cwell/user-fixed-per-well-cost', f'{rel}:{d.line}',
+                          f'with a user-supplied per-well cost the wellfield cost is `{r.show(6)}`, not exactly that figure x (production + '
+                          f'injection wells): the supplied cost is scaled or replaced', fact='Cwell = ccwellfixed x wells')
+                continue
+        # correlation path: per-well cost x adjustment factor x wells (the per-well cost itself is opaque)
+        has_adj = 'ccwelladjfactor' in r.show(40)
+        ctx.check(has_adj and 'ccwellfixed' not in r.show(40), 'T9', 'SUTRAEconomics/Cwell/correlation-path', f'{rel}:{d.line}',
+                  f'on the correlation path the wellfield cost is `{r.show(6)}`: expected correlation cost x adjustment factor x wells',
+                  fact='correlation x adjustment factor x wells')
+    ctx.floor('T9', n, 2, 'paths assembling the SUTRA wellfield cost')
+    for key, parts, what in (('self.CCap.value', [A('Cwell'), A('peakingboilercost'), Rat.atom('self.Cpumps')], 'wells + peaking boiler + pumps'),
+                             ('self.Coam.value', [A('annualpumpingcosts'), A('annualngcost')], 'pumping + natural gas')):
+        for p, r in _final(ctx, fn, key):
+            ctx.require(r is not None, f'SUTRAEconomics.Calculate: a path leaves {key} unassigned')
+            want = sum(parts[1:], parts[0])
+            ctx.check(r.equals(want), 'T9', f'SUTRAEconomics/{key.split(".")[1]}/sum-of-parts', f'{rel}:{p.env[key].line}',
+                      f'{key} is not the sum of its reported parts ({what}); difference: {(r - want).show(5)}', fact=what)
+
+
 def run(ctx) -> None:
     ctx.rule('T1', 'total capital cost = sum of exactly {exploration, wells, stimulation, gathering, plant, piping, district network} '
                    '(or the user total), x (1 - ITC rate) when an ITC is given, + one-time fees - incentives - grants (exact '
@@ -227,6 +273,7 @@ def run(ctx) -> None:
     ctx.rule('T4', 'wellfield cost = per-well costs x well counts, x 1.05 with laterals on the correlation path')
     ctx.rule('T5', 'totals are final before cash-flow, NPV, levelized-cost and add-on code reads them')
     ctx.rule('T7', 'T1-T5 hold for the sibling SBTEconomics.Calculate as well')
+    ctx.rule('T9', 'SUTRAEconomics.Calculate (third sibling): a user-fixed per-well cost is used exactly; totals are the sum of its own parts')
     ctx.rule('T6', 'cost lines of the report print the component their label names (injection/production wording, registry-named labels)')
     ctx.rule('T8', 'a supplied figure is stored by the reader unless it equals the current value (no return on "equals the default")')
     repo = ctx.repo
@@ -238,6 +285,7 @@ def run(ctx) -> None:
     for o in ctx.obligations[before:]:
         o['rule'] = o['rule'] if o['rule'] != 'T5' else 'T5'
     ctx.ok('T7', 'SBTEconomics.Calculate/sibling-checked', sbt.where, f'{len(ctx.obligations) - before} obligations re-checked on the sibling')
+    check_sutra(ctx)
     # "exactly that figure is used": the reader must store a supplied figure (shared with C07 V9)
     from gxstat.runner import Renamed
     from rules.c07 import check_reader_arm
